@@ -9,40 +9,64 @@
 (* after the run.  TLC steps Image's rules alongside: each consecutive pair  *)
 (* must be one of Succs, no state may have a Fault, and the run must end at   *)
 (* the end of the code or at a stop instruction - unless it was stopped from  *)
-(* outside (R.cut).                                                           *)
+(* outside (R.cut).  Each row also carries the depth of the evaluation stack: *)
+(* no instruction finds too few values there, each changes the depth by what   *)
+(* its op-code says, leaving loops drops what they had pushed, and the stack   *)
+(* is empty when the script ends.                                               *)
 (* The one place the Machine is allowed to differ: after `return` it resumes  *)
 (* one past the return address when the instruction there is end_ctx (which   *)
 (* does nothing).                                                              *)
 (***************************************************************************)
 EXTENDS Image
 
-VARIABLES l, st
-tvars == <<rec, pc, fs, l, st>>
+VARIABLES l, st, ds
+tvars == <<rec, pc, fs, l, st, ds>>
 T == R.trace
 Shape(f) == <<9>> \o [i \in DOMAIN f |-> IF f[i].ret = -1 THEN 1 ELSE 0]
 NoLimit == 1000000
 
 Say(ok, why) == PrintT(ToJson([id |-> R.id, ok |-> ok, why |-> why, at |-> l, pc |-> pc]))
-Done(ok, why) == Say(ok, why) /\ st' = (IF ok THEN "done" ELSE "rej") /\ UNCHANGED <<rec, pc, fs, l>>
+Done(ok, why) == Say(ok, why) /\ st' = (IF ok THEN "done" ELSE "rej") /\ UNCHANGED <<rec, pc, fs, l, ds>>
+
+\* ---- the evaluation stack: T[l].es is its depth before the instruction.  What an instruction does to the depth
+\* is fixed by its op-code: push / pushq add one value, pop removes one, a binary operator replaces two by one, a
+\* unary one replaces one by one; end_loop and return drop what the loops being left had put there and not yet
+\* consumed (the depth recorded when the outermost of them was entered).  ds[i]: that depth for loop frame i.
+Unary == {"NOT", "UADD", "USUB"}
+Min2(a, b) == IF a < b THEN a ELSE b
+LoopsLeft == {i \in TopCall + 1..Len(fs) : fs[i].ret = -1}
+Needs(i) == CASE i.op = "POP" -> 1 [] i.op = "OP" -> (IF i.a \in Unary THEN 1 ELSE 2) [] OTHER -> 0
+After(i, es) == CASE i.op \in {"PUSH", "PUSHQ"} -> es + 1
+                  [] i.op = "POP" -> es - 1
+                  [] i.op = "OP" -> IF i.a \in Unary THEN es ELSE es - 1
+                  [] i.op = "END_LOOP" -> IF fs # <<>> /\ ds[Len(fs)] >= 0 THEN Min2(es, ds[Len(fs)]) ELSE es
+                  [] i.op = "RETURN" \/ (i.op = "END" /\ i.a # "MATRIX") ->
+                         IF LoopsLeft = {} THEN es ELSE Min2(es, ds[CHOOSE k \in LoopsLeft : \A j \in LoopsLeft : k <= j])
+                  [] OTHER -> es
+NewDs(i, es, fs2) == IF Len(fs2) > Len(fs) THEN Append(ds, IF i.op = "LOOP" THEN es ELSE -1) ELSE SubSeq(ds, 1, Len(fs2))
 
 \* what the Machine may do where the rule says "resume at the return address"
 Lenient(s) == {s} \cup (IF At(pc).op = "RETURN" /\ s[1] < N /\ At(s[1]).op = "END_CTX" THEN {<<s[1] + 1, s[2]>>} ELSE {})
 Moves == UNION {Lenient(s) : s \in Succs(NoLimit)}
 Fits(s, t) == s[1] = t.pc /\ Shape(s[2]) = t.sh
 
-TInit == rec \in 1..Len(Batch) /\ pc = 0 /\ fs = <<>> /\ l = 1 /\ st = "run"
+TInit == rec \in 1..Len(Batch) /\ pc = 0 /\ fs = <<>> /\ l = 1 /\ st = "run" /\ ds = <<>>
 TNext ==
     /\ st = "run"
     /\ IF ~(pc = T[l].pc /\ Shape(fs) = T[l].sh) THEN Done(FALSE, "the run does not start at instruction 0 with an empty stack")
+       ELSE IF T[l].es < 0 THEN Done(FALSE, "harness: evaluation stack depth not recorded")
        ELSE IF l = Len(T)
             THEN (IF Fault # "" THEN Done(FALSE, Fault)
+                  ELSE IF ~R.cut /\ T[l].es # 0 THEN Done(FALSE, "StackEmptyAtEnd: values were left on the evaluation stack")
                   ELSE IF R.cut \/ pc = N \/ At(pc).op = "STOP" THEN Done(TRUE, "accepted")
                   ELSE Done(FALSE, "Completes: the machine gave up before the end of the code"))
        ELSE IF Fault # "" THEN Done(FALSE, Fault)
        ELSE IF pc = N THEN Done(FALSE, "an instruction was dispatched past the end of the code")
+       ELSE IF T[l].es < Needs(At(pc)) THEN Done(FALSE, "StackNeverUnderflows: " \o At(pc).op \o " with too few values on the evaluation stack")
+       ELSE IF T[l + 1].es # After(At(pc), T[l].es) THEN Done(FALSE, "StackEffect: " \o At(pc).op \o " left an unexpected number of values on the evaluation stack")
        ELSE IF \E s \in Moves : Fits(s, T[l + 1])
             THEN LET s == CHOOSE x \in Moves : Fits(x, T[l + 1])
-                 IN  pc' = s[1] /\ fs' = s[2] /\ l' = l + 1 /\ UNCHANGED <<rec, st>>
+                 IN  pc' = s[1] /\ fs' = s[2] /\ l' = l + 1 /\ ds' = NewDs(At(pc), T[l].es, s[2]) /\ UNCHANGED <<rec, st>>
             ELSE Done(FALSE, "NoSuchStep: " \o At(pc).op)
 TSpec == TInit /\ [][TNext]_tvars
 TTypeOK == st \in {"run", "done", "rej"}
